@@ -58,7 +58,7 @@ var Check = &run.Check{
 	Run: runCase,
 }
 
-var opts = javagen.Opts{TwoTypesPerFile: true, CaseTwinClasses: true, AnonClasses: true, AccessorNames: true, MinFiles: 1, MaxFiles: 6, MaxMethods: 6, MaxParams: 3, MaxFields: 4, Interfaces: true, Generics: true, Annotations: true, Ctors: true, Overloads: true,
+var opts = javagen.Opts{FieldInitCalls: true, TwoTypesPerFile: true, CaseTwinClasses: true, AnonClasses: true, AccessorNames: true, MinFiles: 1, MaxFiles: 6, MaxMethods: 6, MaxParams: 3, MaxFields: 4, Interfaces: true, Generics: true, Annotations: true, Ctors: true, Overloads: true,
 	Bodies: true, MaxStmts: 8, MaxSites: 25, Lambdas: true, MultiByte: true, HotBias: 6, FieldsFirst: true, CRLF: true, ExoticNames: true}
 
 var javaKeywords = map[string]bool{"do": true, "if": true, "for": true, "int": true, "new": true, "try": true, "var": true, "byte": true, "case": true, "char": true, "else": true, "enum": true, "goto": true, "long": true, "this": true, "void": true, "null": true, "true": true}
@@ -211,9 +211,50 @@ func runCase(c *run.Ctx, o *run.Outcome) {
 			k := m.Name + "/" + fmt.Sprint(len(m.Params))
 			planted[k] = append(planted[k], m)
 		}
+		{
+			// calls written outside any method (field initialisers): the model keeps them under nameless function
+			// entries and/or in the type's own call list; they are attributed like any other call and must be renamed
+			// like any other call
+			var named []core_domain.CodeCall
+			for _, fn := range ds.Functions {
+				if fn.Name != "" {
+					continue
+				}
+				for _, call := range fn.FunctionCalls {
+					if call.FunctionName != "" {
+						named = append(named, call)
+					}
+				}
+			}
+			for _, call := range ds.FunctionCalls {
+				if call.FunctionName != "" {
+					named = append(named, call)
+				}
+			}
+			var sites []*javagen.Site
+			for _, st := range ty.InitSites {
+				if st.Kind == "call" {
+					sites = append(sites, st)
+				}
+			}
+			if len(named) != len(sites) {
+				o.SetInconclusive("model and planted field-initialiser calls differ in number (outside C02's statement)")
+				return
+			}
+			for i, call := range named {
+				if call.Package+"."+call.NodeName == cls && call.FunctionName == oldName {
+					if sites[i].Name != oldName {
+						o.SetInconclusive("model call does not match the planted field-initialiser site")
+						return
+					}
+					edits[f.RelPath] = append(edits[f.RelPath], edit{sites[i].ByteOff, sites[i].Line, "call"})
+					o.Count("edits_expected_in_field_initialisers", 1)
+				}
+			}
+		}
 		for _, fn := range ds.Functions {
 			if fn.Name == "" {
-				continue
+				continue // calls written outside any method: handled below, for the type as a whole
 			}
 			ms := planted[fn.Name+"/"+fmt.Sprint(len(fn.Parameters))]
 			var pm *javagen.Method
